@@ -564,8 +564,14 @@ class _StepBase(Contract):
 
         def subset(I_, a, k):
             raise RuntimeError('unbound')
-        return {'global:check_rtl_assertions': Builtin('check_rtl_assertions(stub: no assertions)',
-                                                       lambda I_, a, k: None)}
+        def chk(I_, a, k):
+            # no assertion is registered in the model; what is recorded is WHEN the check runs
+            sim = a[0] if a else None
+            g = getattr(sim, 'fields', {}).get('_ghost') if sim is not None else None
+            if isinstance(g, dict):
+                g['at_assert'] = (sim.fields['regvalue'].arr, sim.fields['memvalue'].arr, sim.fields['value'].arr)
+        return {'global:check_rtl_assertions': Builtin('check_rtl_assertions(stub: no assertions; records the state it sees)',
+                                                       chk)}
 
 
 def _block_model(I, wires, inputs_fn):
@@ -857,6 +863,10 @@ class StepPhase(_StepBase):
             ('S5 next register values captured from the final values, truncated',
              s['regvalue'].arr == g['RG'](g['NR'])),
             ('S6 the trace receives exactly the final value map', g.get('traced') == val),
+            ('S7 rtl assertions are checked on the completed cycle (after the memory writes and the register capture)',
+             z3.BoolVal(False) if g.get('at_assert') is None else
+             z3.And(g['at_assert'][0] == s['regvalue'].arr, g['at_assert'][1] == s['memvalue'].arr,
+                    g['at_assert'][2] == val)),
         ]
 
 
